@@ -3,6 +3,7 @@ package main
 import (
 	"math/big"
 	"strings"
+	"time"
 
 	"golang.org/x/tools/go/ssa"
 )
@@ -440,6 +441,20 @@ func init() {
 		sec := e.tt.IntBin("+", e.sbv2int(a[0].(*Term)), e.tt.Int64(unixToInternal))
 		ns := e.tt.IntBin("+", e.tt.IntBin("*", sec, e.tt.Int64(1_000_000_000)), e.sbv2int(a[1].(*Term)))
 		return TimeVal{NS: ns}
+	})
+	reg("time.Date", func(e *Exec, a []Value) Value {
+		// concrete calendar fields, UTC (package-level constants such as the last protobuf timestamp)
+		var f [7]int
+		for i := 0; i < 7; i++ {
+			t, ok := a[i].(*Term)
+			if !ok || !t.IsConst() {
+				panic(abort{"time.Date with symbolic fields"})
+			}
+			f[i] = int(int64(t.U))
+		}
+		d := time.Date(f[0], time.Month(f[1]), f[2], f[3], f[4], f[5], f[6], time.UTC)
+		ns := new(big.Int).Mul(big.NewInt(d.Unix()+unixToInternal), big.NewInt(1_000_000_000))
+		return TimeVal{NS: e.tt.Int(ns.Add(ns, big.NewInt(int64(d.Nanosecond()))))}
 	})
 	reg("time.Now", func(e *Exec, a []Value) Value {
 		// wall clock: arbitrary value, so that any dependence of state on it is visible
